@@ -92,6 +92,15 @@ def gen_instances(ck: Check):
                     yield "dtype-tall", W, H, it, xs
     for n in (126, 127, 128):   # n_items + 1 at the int8 edge
         yield "dtype-nitems", 4, 4, [[1, 1, n]], [[1] * n, [-1] * n]
+    # the same edge reached by SEVERAL item types, none of which alone has that many copies (bin ids and the second
+    # encoding's bin_starts/bin_ends hold values up to the TOTAL number of items; found missing by seeded change
+    # C01-dtype-by-distinct-count): many small items in few bins, and one item per bin
+    for (W, H, types) in ((20, 20, [[7, 6], [5, 9], [4, 4]]), (10, 10, [[6, 6], [7, 7]]), (12, 5, [[5, 3], [2, 4], [6, 1], [3, 3]])):
+        for total in (126, 127, 128, 129, 180, 260):
+            k = len(types)
+            reps = [total // k + (1 if t < total % k else 0) for t in range(k)]
+            it = [[w, h, r] for (w, h), r in zip(types, reps)]
+            yield "dtype-nitems-multi", W, H, it, [signed_perm(rng, it) for _ in range(2 if q else 4)]
     yield "boundary", 10**12, 7, [[7, 5, 1], [7, 7, 2], [3, 3, 3]], \
         [signed_perm(rng, [[1, 1, 1], [1, 1, 2], [1, 1, 3]]) for _ in range(3)]
     # (3) structured random
